@@ -221,6 +221,8 @@ def run(ch, config, res):
             srv.fault_hook = lambda conn, dec, scope: (F_NO if (not isinstance(dec, str) and dec.verb == b"AUTHENTICATE") else None)
     failure = None
 
+    asked_again = [None]
+
     def attempt(client, scope, announced):
         """One connect() and its oracle; returns Failure | None."""
         nseen = len(srv.sasl_seen)
@@ -229,6 +231,10 @@ def run(ch, config, res):
         with ch.scope(scope):
             o = world.call(client, "connect", login, password, authz_id=authz, authmech=authmech, starttls=use_tls)
         seen = srv.sasl_seen[nseen:]
+        if announced is None and asked_again[0] is not None and any(
+                r.verb == b"CAPABILITY" and r.status == b"OK" and r.call_id == o.call_id for r in srv.log):
+            # the spontaneous post-TLS listing was refused, but the client asked with CAPABILITY and was told
+            announced = asked_again[0]
         exp = expected_mech(announced, authmech)
         sent_auth = [r for r in srv.log if r.verb == b"AUTHENTICATE" and r.call_id == o.call_id]
         label = "%s connect(%r, %r, authz_id=%r, authmech=%r) against SASL %r" % (scope, login, password, authz, authmech, announced)
@@ -291,9 +297,11 @@ def run(ch, config, res):
                 refused_caps = ch.srv.flag("postcaps_refused", 1, 5)
         if refused_caps:
             srv.postcaps_hook = lambda conn: "no"
+            asked_again[0] = announced
             res.count("fault:post-tls-listing-refused")
         failure = attempt(client, "op#0", None if refused_caps else announced)
         srv.postcaps_hook = None
+        asked_again[0] = None
         if failure is None:
             # a second connection from the same object to a server that now announces something else: nothing learnt
             # from the first connection may leak into the second
